@@ -145,6 +145,23 @@ def run(ck):
                 ids.append(c["id"])
             groups.append(ids)
             ck.count("family:same_field_mixed_entries")
+        # rows that are twins except for one attribute of one predicate (case flag, cast, match type):
+        # whichever is written first, both must survive the optimiser
+        twins = [(["*foo*", "*bar*"], ["i*foo*", "i*bar*"]), (["foo", "bar"], ["ifoo", "ibar"]), (["foo*", "bar*"], ["*foo", "*bar"]),
+                 (["?foo", "?bar"], ["i?foo", "i?bar"]), ("foo", "ifoo"), ("*foo*", "foo"), ("?^foo", "i?^foo")]
+        tdocs = [D(d) for d in ({"cmd": "FOO", "user": "root"}, {"cmd": "foo", "user": "root"}, {"cmd": "xfoo", "user": "root"},
+                                {"cmd": "BAR", "user": "adm"}, {"cmd": "foo"}, {"user": "root"}, {})]
+        for a, b in twins:
+            rows = [{"cmd": a, "user": "root"}, {"cmd": b, "user": "root"}, {"cmd": "zzz", "user": "adm"}]
+            ids = []
+            for perm in itertools.permutations(range(3)):
+                for det in ({"A": [rows[i] for i in perm], "condition": "A"},
+                            {"X0": rows[0], "X1": rows[1], "X2": rows[2], "condition": " or ".join("X%d" % i for i in perm)}):
+                    c = {"k": "rule", "id": ck.new_id(), "rule": rule_text(det), "docs": tdocs, "sw": SWS}
+                    cases.append(c)
+                    ids.append(c["id"])
+            groups.append(ids)
+            ck.count("family:twin_rows")
     finally:
         gen.NEG = True
     send = rulebase.wire(cases)
